@@ -15,7 +15,7 @@ import itertools
 from ..cfg import cfg_of
 from ..flow import flow_of, path_of
 from ..loader import FUNC, AnalysisError, dotted, last_name, loc, short, walk_local, enclosing_func
-from ..util import ENGBASE, PATH, REPEX, TIS, all_calls, arg_for_param, kwarg, last_key, param_index
+from ..util import ENGBASE, PATH, REPEX, TIS, all_calls, arg_for_param, kwarg, last_key, oriented, param_index
 from ..variants import B, K
 
 EXPLANATION = (
@@ -579,9 +579,10 @@ def r95(ctx):
     def comparisons(f, names):
         out = {}
         for n in walk_local(f):
-            if isinstance(n, ast.Compare) and len(n.ops) == 1 and isinstance(n.comparators[0], ast.Name) and n.comparators[0].id in names:
-                if "order" in ast.unparse(n.left):
-                    out[n.comparators[0].id] = n
+            o = oriented(n, lambda x: "order" in ast.unparse(x))
+            if o is not None and isinstance(o[2], ast.Name) and o[2].id in names:
+                n._oop = o[1]  # operator with the order parameter on the left, however the test is written
+                out[o[2].id] = n
         return out
 
     stop = comparisons(add, {"left", "right"})
@@ -592,7 +593,7 @@ def r95(ctx):
         if set(c) != {"left", "right"}:
             raise AnalysisError(f"R-9.5: classifier comparisons not found in get_{which}_point")
         for side in ("left", "right"):
-            cop, sop = c[side].ops[0], stop[side].ops[0]
+            cop, sop = c[side]._oop, stop[side]._oop
             strict_stop = isinstance(sop, (ast.Lt, ast.Gt))
             incl_cls = isinstance(cop, (ast.LtE, ast.GtE))
             opn = {ast.Lt: "<", ast.LtE: "<=", ast.Gt: ">", ast.GtE: ">="}
